@@ -68,5 +68,9 @@ add('C18', _P, 'Lean 4 theorems over all finite OS fault sequences (induction on
     'Tie: all sequences over {EINTR,EAGAIN,EIO,ok} to length 4/5 on getrandom / getentropy / raw syscall builds.', '5 C18')
 add('C19', 'exploration', 'symbol audit, interleavings, threads + TSan (Lean frame/commutation theorems: see level text)',
     'Symbol/section audit of the objects built from the working tree, interleaved-vs-alone histories, real threads under TSan.  Lean part: TJ.Props.C19 (when present).', 'Races in compiled code are observed only on the schedules run.', '5 C19')
-add('C20', 'exploration', 'dumps after free, clean windows, build configurations (Lean theorems: see level text)',
-    'State dumps after free following random histories for four state kinds; clean on every (offset, size) window with canaries; HAVE_EXPLICIT_BZERO on/off and compiler matrix.  Lean part: TJ.Props.C20 (when present).', '', '5 C20')
+add('C20', _P, 'Lean 4 theorems on the REGENERATED free functions and wipe primitive (symbolic execution of the MiniC terms; loop induction for the volatile fallback) + dumps after free and clean windows on the compiled code',
+    'TJ.Props.C20: for the terms regenerated from the current C sources, calling tinyjambu_{hash,hmac,hkdf,prng}_free on a state object of the public size completes and leaves every byte of the object zero, whatever it held (any history), '
+    'and changes no other block; tinyjambu_clean zeroes exactly the bytes [off, off+n) for every offset and size (explicit_bzero configuration).  TJ.Props.C20Fallback: the same for the volatile byte loop, regenerated from '
+    'tinyjambu-clean.c with HAVE_EXPLICIT_BZERO / HAVE_MEMSET_S off (induction over the loop, any n < 2^32).  On the compiled code: dumps after free following random histories for the four state kinds, clean on every (offset, size) window with canaries, '
+    'both configurations of the primitive, gcc/clang and optimisation levels in the thorough tier.',
+    'That a compiler keeps the stores is observed (memory read back after the call on the build matrix), not proved; explicit_bzero is libc (modelled as a store of n zero bytes).', '5 C20')
